@@ -105,6 +105,9 @@ func genC20(r *kernel.Rand) *kernel.Scenario {
 		for j := 0; j < n; j++ {
 			st.A["bal"+strconv.Itoa(j)] = int64([]int{0, 0, 5, 9}[r.Intn(4)]*16 + []int{0, 0, 5, 9}[r.Intn(4)])
 		}
+		if op != "fund" && kernel.NewRand(kernel.Derive(uint64(i), "twin", int64(st.A["bal0"]), int64(st.A["idx"]), int64(n))).Bool(0.15) {
+			st.A["twin"] = 1
+		}
 		if op == "fund" && r.Bool(0.6) {
 			// index into the distinct ledgers in first-occurrence order; sometimes past the end
 			st.A["ego"] = int64(r.Intn(len(distinct) + 1))
